@@ -2,6 +2,7 @@ pub mod c04;
 pub mod c05;
 pub mod c06;
 pub mod c14;
+pub mod c15;
 pub mod c19;
 pub mod c20;
 
@@ -16,6 +17,7 @@ pub fn run(ctx: &Ctx, sink: &mut Sink) -> bool {
         "C06" => c06::run_prop(ctx, sink),
         "C05" => c05::run_prop(ctx, sink),
         "C14" => c14::run_prop(ctx, sink),
+        "C15" => c15::run_prop(ctx, sink),
         _ => return false,
     }
     true
